@@ -409,3 +409,7 @@ w("C09", "numpy default number instance registered for every width again", "pand
   "                getattr(dtypes, f\"{pandera_name}{bit_width}\")(),\n            }\n", "                getattr(dtypes, f\"{pandera_name}{bit_width}\")(),\n                getattr(dtypes, pandera_name)(),\n            }\n")
 w("C09", "pandas default number class registered for every width", "pandera/engines/pandas_engine.py",
   "            getattr(dtypes, f\"{pandera_name}{bit_width}\")(),\n        }\n\n        if np_dtype == default_pd_dtype:", "            getattr(dtypes, f\"{pandera_name}{bit_width}\")(),\n            getattr(dtypes, pandera_name),\n        }\n\n        if np_dtype == default_pd_dtype:")
+w("C12", "writer recognises only the naive DateTime dtype again", "pandera/io/pandas_io.py",
+  "            dtype is not None\n            and dtypes.is_datetime(dtype)\n            and hasattr(stat, \"strftime\")", "            pandas_engine.Engine.dtype(dtypes.DateTime).check(dtype)\n            and hasattr(stat, \"strftime\")")
+w("C12", "reader recognises only the naive DateTime dtype again", "pandera/io/pandas_io.py",
+  "            if dtype is not None and dtypes.is_datetime(dtype):\n                try:", "            if pandas_engine.Engine.dtype(dtypes.DateTime).check(dtype):\n                try:")
